@@ -259,9 +259,14 @@ def prethread_loops(src: str, rng: random.Random, nloops=2):
             inner = ind + "  "
             body_setups = [(k, m) for k in range(i + 1, j) if (m := ac._SETUP_RE.match(lines[k])) and m.group(1) == inner]
             cands = sorted({m.group(3) for _, m in body_setups})
-            if rng.random() < 0.2:
-                # also an accelerator the body does not set up at its top level (the loop then just passes its state through)
-                cands = sorted(set(cands) | {m.group(3) for l in lines[:i] if (m := ac._SETUP_RE.match(l)) and m.group(1) == ind})
+            u0 = rng.random()
+            if u0 < 0.45:
+                # also an accelerator the body does not set up at its top level (the loop then just passes its state through) ...
+                outer = {m.group(3) for l in lines[:i] if (m := ac._SETUP_RE.match(l)) and m.group(1) == ind}
+                if u0 < 0.25 and outer - set(cands):
+                    cands = sorted(outer - set(cands))  # ... and only such accelerators
+                else:
+                    cands = sorted(set(cands) | outer)
             if not cands:
                 continue
             acc = rng.choice(cands)
@@ -308,6 +313,57 @@ def prethread_loops(src: str, rng: random.Random, nloops=2):
         else:
             break
     return "\n".join(lines)
+
+
+def passthrough_program(rng: random.Random):
+    """A loop that ALREADY carries the state of accelerator X (left over from an earlier trace + dedup run) but no longer sets X up
+    in its body: it passes the state through, while the body sets up the other accelerator and (mostly) reaches an unannotated
+    call; X is set up again (a few fields) and launched behind the loop."""
+    g = ac.Gen(rng, full=False, depth=2, accs=ac.ACCS)
+    x, y = rng.sample(ac.ACCS, 2)
+    vals = [f"%x{i}" for i in range(ac.NARGS)]
+    ind = "  "
+    out = []
+    g.scope_accs = [[x]]
+    g.full = rng.random() < 0.6
+    pre = g.setup_launch(list(vals), ind, {})
+    sx = next(m.group(2) for l in pre if (m := ac._SETUP_RE.match(l)))
+    out += pre
+    if rng.random() < 0.4:
+        g.scope_accs = [[y]]
+        out += g.setup_launch(list(vals), ind, {})
+    lbn, ubn, stn = g.loop_bounds()
+    i, ii, arg, res = g.fresh("i"), g.fresh(), g.fresh("pa"), g.fresh("pr")
+    ty = ac.st_ty(x)
+    out.append(f"{ind}{res} = scf.for {i} = {lbn} to {ubn} step {stn} iter_args({arg} = {sx}) -> ({ty}) {{")
+    out.append(f"{ind}  {ii} = arith.index_cast {i} : index to i32")
+    body = []
+    g.scope_accs = [[y]]
+    g.full = rng.random() < 0.5
+    for _ in range(rng.randint(1, 3)):
+        k = rng.random()
+        if k < 0.45:
+            body += g.setup_launch(vals + [ii], ind + "  ", {})
+        elif k < 0.8:
+            body += g.effect_nest(ind + "  ", rng.randint(0, 2))
+        else:
+            body.append(f'{ind}  func.call @g() {{"accfg.effects" = #accfg.effects<none>}} : () -> ()')
+    if not any("accfg.setup" in l for l in body):
+        body += g.setup_launch(vals + [ii], ind + "  ", {})
+    out += body
+    out.append(f"{ind}  scf.yield {arg} : {ty}")
+    out.append(f"{ind}}}")
+    g.scope_accs = [[x]]
+    g.full = False
+    post = g.setup_launch(list(vals), ind, {})
+    if rng.random() < 0.5:
+        post = [re.sub(r'accfg\.setup "(\w+)" to', lambda m: f'accfg.setup "{m.group(1)}" from {res} to', l, count=1) if ac._SETUP_RE.match(l) else l
+                for l in post]
+    out += post
+    sig = ", ".join([f"%x{i} : i32" for i in range(ac.NARGS)] + ["%c0 : i1", "%c1 : i1"]
+                    + [f"%{n}{b} : index" for b in range(ac.NBOUNDS) for n in ("lb", "ub", "st")])
+    return ("func.func private @g() -> ()\n" f"func.func @f({sig}) {{\n" "  %lv = arith.constant 1 : i5\n"
+            + "".join(f"  %k{k} = arith.constant {k} : index\n" for k in range(5)) + "\n".join(out) + "\n  func.return\n}\n")
 
 
 def canon_states(lst):
